@@ -1381,6 +1381,12 @@ func cmdReadFault(a Args) {
 		all = true
 		mode = strings.TrimSuffix(mode, "+all")
 	}
+	if prop == "C10" || strings.HasPrefix(mode, "handles") {
+		// child handles obtained BEFORE a faulted and retried parent request (readfault_handles.go);
+		// -mode array / map restricts the kind of the parent
+		cmdReadFaultHandles(a, strings.TrimPrefix(strings.TrimPrefix(mode, "handles"), "-"), all)
+		return
+	}
 	if mode == "" {
 		switch prop {
 		case "C01":
